@@ -204,6 +204,7 @@ def queries(tier):
         qs.append(_q("hist.T10.%s" % var, "T10", [{}, {}], timeout=600, fixed=fx))
     for v in ("bd" if tier == "quick" else "bcd"):
         qs.append(_q("hist.T10.a%s" % v, "T10", [{"variants": A}, {"variants": {"tq.m1": v}}], timeout=600, fixed=F10))
+    qs.append(_q("hist.T10.ef", "T10", [{"variants": {"tq.m1": "e"}}, {"variants": {"tq.m1": "f"}}], timeout=600, fixed=(F10 if tier == "quick" else {"Q": [2, 2], "R": [3, 3]})))  # indentation-only edit (thorough: L symbolic in both steps)
     if tier == "thorough":
         qs.append(_q("hist.T10.m2b", "T10", [{}, {"variants": {"tq.m2": "b"}, "restart": True}], timeout=600, fixed=F10))
     if tier == "thorough":
